@@ -97,7 +97,7 @@ def analyse_ensemble(chains, S=2.0, tau_exp=0.0, N_sigma=1.0, force_W=None, rel_
         for n in range(1, w_max // 2):
             dr[n + 1] = drho(n + 1)
             crit = rho[n] - N_sigma * dr[n]
-            tol = rel_margin * (abs(rho[n]) + abs(N_sigma * dr[n]) + 1e-300)
+            tol = rel_margin * (abs(rho[n]) + abs(N_sigma * dr[n])) + 1e-12
             cap = n >= w_max // 2 - 2
             if force_W is not None:
                 stop = (n == force_W)
@@ -128,7 +128,7 @@ def analyse_ensemble(chains, S=2.0, tau_exp=0.0, N_sigma=1.0, force_W=None, rel_
             a = math.exp(-n / tw)
             b = tw / math.sqrt(n * N)
             g = a - b
-            tol = rel_margin * (abs(a) + abs(b))
+            tol = rel_margin * (abs(a) + abs(b)) + 1e-13
             cap = n >= w_max - 1
             if force_W is not None:
                 stop = (n == force_W)
